@@ -107,21 +107,23 @@ Definition read_num (s : str) : option (option Z * str) :=
       else Some (Some (Z.of_N (fold_left (fun a c => a * 16 + hex_val c)%N d 0%N)), r')
   | _ => plain s
   end.
-(* tail after the last number:  \s*[\)\]]?\)$   ($ also matches before one trailing newline) *)
-Definition close_ok (s : str) : bool :=
+(* tail after the last number:  \s*[\)\]]?\)\Z , the bracket being the counterpart of the opening one (as repaired:
+   known_findings F31 - unbalanced / mismatched brackets, F32 - trailing newline) *)
+Definition close_ok (ob : option char) (s : str) : bool :=
   let s := skip_space s in
-  let body := match rev s with 10%N :: r => rev r | _ => s end in
-  (* skip_space may have eaten the newline already when only spaces precede it: accept both *)
-  let ok (b : str) := match b with [41%N] | [41%N; 41%N] | [93%N; 41%N] => true | _ => false end in
-  ok body || ok s.
+  match ob with
+  | None => str_eqb s [41%N]
+  | Some c => if (c =? 91)%N then str_eqb s [93%N; 41%N] else str_eqb s [41%N; 41%N]
+  end.
 Definition strip_prefix (p s : str) : option str := if starts_with s p then Some (skipn (length p) s) else None.
 Definition read_component (s : str) : component * str :=
   match strip_prefix [102; 103; 95]%N s with Some r => (FG, r) | None =>
   match strip_prefix [98; 103; 95]%N s with Some r => (BG, r) | None =>
   match strip_prefix [117; 108; 95]%N s with Some r => (UL, r) | None =>
   match strip_prefix [100; 117; 108; 95]%N s with Some r => (DUL, r) | None => (FG, s) end end end end.
-Definition open_bracket (s : str) : str :=
-  match s with c :: r => if ((c =? 91) || (c =? 40) || (c =? 41))%N then r else s | [] => [] end.
+(* the optional opening bracket: '[' or '(' *)
+Definition open_bracket (s : str) : option char * str :=
+  match s with c :: r => if ((c =? 91) || (c =? 40))%N then (Some c, r) else (None, s) | [] => (None, []) end.
 
 Inductive rgbres := RNoMatch | RBad | RTexts (l : list str).
 
@@ -137,7 +139,8 @@ Definition parse_rgb_string (s : str) : rgbres :=
   match after_fn with
   | None => RNoMatch
   | Some (is_rgb, r1) =>
-    match read_num (skip_space (open_bracket r1)) with
+    let '(ob, r1') := open_bracket r1 in
+    match read_num (skip_space r1') with
     | None => RNoMatch
     | Some (v1, r2) =>
       let three :=
@@ -149,7 +152,7 @@ Definition parse_rgb_string (s : str) : rgbres :=
               match skip_space r4 with
               | 44%N :: r5 =>
                 match read_num (skip_space r5) with
-                | Some (v3, r6) => if close_ok r6 then Some (v1, v2, v3) else None
+                | Some (v3, r6) => if close_ok ob r6 then Some (v1, v2, v3) else None
                 | None => None end
               | _ => None end
             | None => None end
@@ -159,7 +162,7 @@ Definition parse_rgb_string (s : str) : rgbres :=
       | Some (Some a, Some b, Some c) => RTexts (rgb3 a b c comp)
       | Some _ => RBad
       | None =>
-        if close_ok r2 then
+        if close_ok ob r2 then
           match v1 with
           | Some v => RTexts (if is_rgb then rgb1 v comp else color256 v comp)
           | None => RBad end
